@@ -1440,8 +1440,8 @@ class Interp:
             a = v.single_atom()
             if a is None:
                 return False  # arithmetic result
-            if a[0] in ("fn",) and a[1] not in ("get", "getattr", "pop"):
-                return False
+            if a[0] in ("fn",) and a[1].split(".")[-1] not in ("get", "getattr", "pop", "search", "match", "fullmatch", "getenv", "which", "find_spec"):
+                return False          # a computed value; the listed routines answer None for "not found"
             if a[0] == "phi" and a[2]:
                 alts = [self._is_none(x, st) for x in a[2]]
                 if all(t is False for t in alts):
@@ -2669,6 +2669,10 @@ class Interp:
         if closure:
             for k, v in closure.items():
                 sub.env[k] = v
+            if callee.parent is not None and fi is callee.parent:
+                # late binding: a nested function called from the body of the function that defined it reads the enclosing
+                # variables as they are NOW (a helper defined at the top that uses a local assigned further down)
+                sub.env.update(st.env)
         elif callee.parent is not None and self._stack and any(f is callee.parent for f, _ in self._stack):
             sub.env.update(st.env)
         # methods analysed with a concrete receiver class
